@@ -769,3 +769,18 @@ func ssaPkgOf(fn *ssa.Function) *ssa.Package {
 	}
 	return nil
 }
+
+// methodsOf: the methods of named type N declared in the module (pointer and value receivers), in
+// source order.
+func (a *A) methodsOf(N *types.Named) []*ssa.Function {
+	var out []*ssa.Function
+	for _, fn := range a.ModFuncs {
+		if fn.Parent() != nil || fn.Signature.Recv() == nil || fn.Blocks == nil {
+			continue
+		}
+		if types.Identical(derefT(fn.Signature.Recv().Type()), N) {
+			out = append(out, fn)
+		}
+	}
+	return out
+}
